@@ -4,7 +4,7 @@
 // route the harness itself posted to). A continuation whose cursor was minted
 // by method A, posted to B/exchange with B != A, must be answered with a 4xx
 // carrying an error envelope; no state method (Produce / Exchange / OnCancel)
-// may run for that request (observed through the instrumented states' event
+// and no RehydrateFunc call may happen for that request (observed through the instrumented states' event
 // log) and ServeHTTP must not panic (an escaping panic makes net/http abort
 // the connection).  Control: the same tokens at A's own route are accepted and
 // advance the stream — without that a refusal means nothing.
@@ -68,7 +68,8 @@ func main() {
 	defer r.Finish()
 	r.SetRule("all ordered pairs (A,B), A!=B, of 10 registered stream methods (producer, producer+header, exchange, exchange+header, second name for the same state type, second state type, dynamic-as-producer, dynamic-as-exchange) x token age 0..K legit turns on A x continuation kind {route's natural data/tick, cancel} x {cache hit on minting instance, cache disabled, other instance sharing the key, sticky-enabled instance}; thorough adds A's cursor paired with B's call token and random identities/args; distinct = (A,B,age,cont,config,variant); trivial = none")
 	r.Require("control-accepted", "foreign-presented", "pair:other-interface", "pair:same-interface", "pair:same-state-type",
-		"cont:data", "cont:tick", "cont:cancel", "config:hit", "config:miss-nocache", "config:other-instance", "config:sticky")
+		"cont:data", "cont:tick", "cont:cancel", "config:hit", "config:miss-nocache", "config:other-instance", "config:sticky",
+		"rehydrate:logging", "rehydrate:strict-assert", "rehydrate:strict-error")
 	r.Assume("in-process ServeHTTP on httptest.ResponseRecorder stands for a connection: a panic escaping ServeHTTP is what net/http turns into an aborted connection")
 	r.Assume("requests are issued sequentially per instance, so service events between request start and return belong to that request")
 
@@ -80,16 +81,20 @@ func main() {
 			we.NewInstance(log, "i1-nocache", we.Opt{CacheEntries: 0}),
 			we.NewInstance(log, "i2-other", we.Opt{CacheEntries: -1}),
 			we.NewInstance(log, "i3-sticky", we.Opt{CacheEntries: -1, Sticky: true}),
+			we.NewInstance(log, "i4-strict-assert", we.Opt{CacheEntries: -1, Rehydrate: "strict-assert"}),
+			we.NewInstance(log, "i5-strict-error", we.Opt{CacheEntries: 0, Rehydrate: "strict-error"}),
 		}
 	}
 	configs := []config{
 		{"hit", 0, 0}, {"miss-nocache", 1, 1}, {"other-instance", 0, 2}, {"sticky", 3, 3},
+		{"strict-assert", 4, 4}, {"strict-error", 5, 5},
 	}
+	rehydrateMode := map[string]string{"strict-assert": "strict-assert", "strict-error": "strict-error"}
 	maxAge := r.N(3, 6)
 	reps := r.N(8, 60)
 	ids := []we.Identity{we.Anon, we.Auth("bearer", "alice"), we.Auth("", "anonymous"), we.Auth("jwt", "bob\x00x")}
 
-	var nForeign, nPanic, nRan, nAccepted, n4xx int64
+	var nForeign, nPanic, nRan, nAccepted, n4xx, nRehydrate int64
 	for rep := 0; rep < reps; rep++ {
 		rng := r.Rand(uint64(rep))
 		insts := mk()
@@ -165,6 +170,11 @@ func main() {
 								r.Class("pair:" + rel)
 								r.Class("cont:" + cname)
 								r.Class("config:" + cfg.name)
+								mode := rehydrateMode[cfg.name]
+								if mode == "" {
+									mode = "logging"
+								}
+								r.Class("rehydrate:" + mode)
 								r.Case(fmt.Sprintf("%s>%s|%d|%s|%s|%s|%s|%d", A.Name, B.Name, age, cname, cfg.name, variant, id.Key(), arg))
 
 								var stateRan []string
@@ -172,6 +182,29 @@ func main() {
 									if e.Actor == "state" && (e.Kind == "produce" || e.Kind == "exchange" || e.Kind == "oncancel") {
 										ev, _ := e.Payload.(we.Evt)
 										stateRan = append(stateRan, fmt.Sprintf("%s on %s minted by %s at route %s", e.Kind, ev.State, ev.Origin, ev.Route))
+									}
+								}
+								var evs []string
+								for _, e := range obs.Events {
+									evs = append(evs, e.Actor+":"+e.Kind+":"+e.Key)
+								}
+								mkWitness := func() witness {
+									return witness{
+										Minted: A.Name, Route: B.Name, Turns: age, Cont: cname, Config: cfg.name, CallFrom: callFrom,
+										Identity: id.String(), Cursor: string(cursor), Call: string(presentCall), Obs: obs, Events: evs,
+										Replay: fmt.Sprintf("VERIF_SEED=%d /verif/check C14 %s  (rep %d); or: init %s (arg %d) on a server with key we.DefaultKey and the %s RehydrateFunc, %d legit turns, then POST /%s/exchange with these two metadata values", r.Seed(), r.Tier(), rep, A.Name, arg, mode, age, B.Name),
+									}
+								}
+								// The application's RehydrateFunc is the method's code too: it is
+								// called as (state, route method) and must never see a foreign state.
+								for _, e := range obs.Events {
+									if e.Actor == "rehydrate" {
+										ev, _ := e.Payload.(we.Evt)
+										nRehydrate++
+										r.Violation(fmt.Sprintf("xmethod:rehydrate-ran-on-foreign-state:%s:%s", rel, cname),
+											fmt.Sprintf("tokens minted by %s (%s) presented at %s/exchange (%s, %s continuation, %s): RehydrateFunc was called with (state %s minted by %s, method %q); response %s panic=%q",
+												A.Name, kindName(A), B.Name, kindName(B), cname, cfg.name, ev.State, A.Name, ev.Route, obs.Refusal(), obs.Panic), mkWitness())
+										break
 									}
 								}
 								outcome := ""
@@ -193,18 +226,10 @@ func main() {
 								if outcome == "" {
 									continue
 								}
-								var evs []string
-								for _, e := range obs.Events {
-									evs = append(evs, e.Actor+":"+e.Kind+":"+e.Key)
-								}
 								sig := fmt.Sprintf("xmethod:%s:%s:%s", outcome, rel, cname)
 								what := fmt.Sprintf("tokens minted by %s (%s) presented at %s/exchange (%s, %s continuation, %s): %s",
 									A.Name, kindName(A), B.Name, kindName(B), cname, cfg.name, describe(outcome, obs, stateRan))
-								r.Violation(sig, what, witness{
-									Minted: A.Name, Route: B.Name, Turns: age, Cont: cname, Config: cfg.name, CallFrom: callFrom,
-									Identity: id.String(), Cursor: string(cursor), Call: string(presentCall), Obs: obs, Events: evs,
-									Replay: fmt.Sprintf("VERIF_SEED=%d /verif/check C14 %s  (rep %d); or: init %s (arg %d) on a server with key we.DefaultKey, %d legit turns, then POST /%s/exchange with these two metadata values", r.Seed(), r.Tier(), rep, A.Name, arg, age, B.Name),
-								})
+								r.Violation(sig, what, mkWitness())
 							}
 						}
 					}
@@ -217,6 +242,7 @@ func main() {
 	r.Count("foreign.state_method_ran", nRan)
 	r.Count("foreign.accepted_without_state_method", nAccepted)
 	r.Count("foreign.refused_4xx_with_error", n4xx)
+	r.Count("foreign.rehydrate_called", nRehydrate)
 	r.Set("methods", len(we.Methods))
 	r.Set("ordered_pairs", len(we.Methods)*(len(we.Methods)-1))
 	r.Sample(map[string]any{"pair": "exch -> prod", "ages": maxAge + 1, "conts": []string{"natural", "cancel"}, "configs": []string{"hit", "miss-nocache", "other-instance", "sticky"}})
